@@ -51,6 +51,7 @@ ASSUMPTIONS = [
     "unknowns()/extras() follow each implementation's documented shape: bzr reports an unversioned directory but not its contents, git reports unversioned non-directories recursively",
     "states and operations that hit defects already reported (checks/treesim.py GUARDS: " + ", ".join(sorted(T.GUARDS)) + ") are left out while the guard is on; a guard is lifted in a share of the runs once known_findings.json has an open entry [property, 'known-defect', guard], and failures inside such a territory carry that signature",
     "two-writer phase: the writers' operations are pairwise independent (no path of one at, below or above a path of another), so every serial order gives the same tree and the oracle is 'model after exactly the acknowledged operations'; a writer that meets LockContention/LockFailed drops its tree object and re-opens (a new command); both writers share one address space",
+    "determinism pins: storesim.install_pins (index/pack objects ordered by name) and treesim.install_order_pin (results of dirstate iter_changes with >= 2 search roots sorted by path: the Rust code walks the roots in per-thread hash order, which would decide the bytes and name of the pack written by a partial commit)",
     "runs execute in-process (ISOLATION=thread): each run builds tree, model and Sim from scratch; random parts of lock/upload names are masked in the event log",
 ]
 STEP_CAP = 200000
